@@ -151,6 +151,17 @@ def _f(rng, lo, hi):
     return float(rng.uniform(lo, hi))
 
 
+# --- boolean option draws: recorded (so a sweep can enumerate every combination) and overridable -----------------------
+FORCED_FLAGS = {}     # name -> bool, set by stepcorr.sweep while it enumerates combinations
+DRAWN_FLAGS = []      # names drawn while building the last Spec
+
+
+def flag(rng, name):
+    v = bool(rng.integers(0, 2))     # always consume the draw: the rest of the configuration stays the same
+    DRAWN_FLAGS.append(name)
+    return FORCED_FLAGS.get(name, v)
+
+
 def registry():
     """name -> generator(rng, D, N, order) -> Spec  (None when the class does not support D)"""
     import exponax as ex
@@ -215,7 +226,7 @@ def registry():
     def dispersion(rng, D, N, order):
         L, dt = base(rng)
         import jax.numpy as jnp
-        mix = bool(rng.integers(0, 2))
+        mix = flag(rng, "mix")
         xi = [float(x) for x in rng.uniform(-1, 1, D)]
         terms = pmul(grad_inner(D, xi, 1), lap(D, 1.0, 2)) if mix else grad_inner(D, xi, 3)
         return Spec("Dispersion", st.Dispersion, {"dispersivity": jnp.asarray(xi), "advect_on_diffusion": mix},
@@ -224,7 +235,7 @@ def registry():
 
     def hyper(rng, D, N, order):
         L, dt = base(rng)
-        mix = bool(rng.integers(0, 2))
+        mix = flag(rng, "mix")
         mu = _f(rng, 1e-4, 0.05)
         terms = pscale(-mu, pmul(lap(D, 1.0), lap(D, 1.0))) if mix else lap(D, -mu, 4)
         return Spec("HyperDiffusion", st.HyperDiffusion, {"hyper_diffusivity": mu, "diffuse_on_diffuse": mix},
@@ -270,8 +281,8 @@ def registry():
 
     # ---------------- convection family ----------------
     def conv_flags(rng, D):
-        single = bool(rng.integers(0, 2))
-        cons = bool(rng.integers(0, 2))
+        single = flag(rng, "single_channel")
+        cons = flag(rng, "conservative")
         C = 1 if single else D
         return single, cons, C
 
@@ -291,7 +302,7 @@ def registry():
         L, dt = base(rng)
         single, cons, C = conv_flags(rng, D)
         b, nu, a3, mu = _f(rng, -6, 2), _f(rng, 0, 0.1), _f(rng, 0.01, 0.5), _f(rng, 0.001, 0.02)
-        aod, dod = bool(rng.integers(0, 2)), bool(rng.integers(0, 2))
+        aod, dod = flag(rng, "advect_over_diffuse"), flag(rng, "diffuse_over_diffuse")
         disp = pmul(grad_inner(D, [a3] * D, 1), lap(D, 1.0)) if aod else grad_inner(D, [a3] * D, 3)
         hyp = pscale(mu, pmul(lap(D, 1.0), lap(D, 1.0))) if dod else lap(D, mu, 4)
         terms = lap(D, nu) + pscale(-1.0, disp) + pscale(-1.0, hyp)
@@ -466,7 +477,7 @@ def registry():
             return None
         L, dt = base(rng)
         co, b = gen_lin_coefs(rng), _f(rng, 0.5, 1.5)
-        inj = bool(rng.integers(0, 2))
+        inj = flag(rng, "inject")
         m, gam = int(rng.integers(1, max(2, N // 3))), (_f(rng, 0.3, 1.5) if inj else 0.0)
         nl = f"vort {U.ftok(b)} 1 {m} {U.ftok(gam)}" if inj else f"vort {U.ftok(b)} 0"
         return Spec("GeneralVorticityConvectionStepper", gen.GeneralVorticityConvectionStepper,
